@@ -70,9 +70,9 @@ Print Assumptions C01_reserved_block_is_fresh.
 
 (* (1)+(2)+(3a): one node work item (the node is not being deleted) *)
 Theorem C01_written_cidrs_stay_reserved_and_are_avoided :
-  forall po lab canp apisame held m cached reread outs m' r fx,
+  forall po lab svcs canp apisame held m cached reread outs m' r fx,
   MapInv m -> (forall n, cached = Some n -> wf_node n /\ n_deleting n = false) -> r <> Panic ->
-  sync_node po lab canp apisame held m cached reread outs = (m', r, fx) ->
+  sync_node po lab svcs canp apisame held m cached reread outs = (m', r, fx) ->
   (forall name c, Held m name c -> Held m' name c) /\
   (forall nm cs o, In (FxPatch nm cs o) fx -> forall name k, Held m name k -> forall x, In x cs -> overlapb x k = false) /\
   (forall nm cs o, In (FxPatch nm cs o) fx -> r = Ok tt \/ In (FxGetNode nm false) fx -> forall x, In x cs -> Held m' nm x).
@@ -88,7 +88,7 @@ Print Assumptions C01_reservations_survive_clustercidr_items.
 
 (* (3c): releasing a node touches only that node's associations and the keys its own pod CIDRs overlap *)
 Theorem C01_reservations_survive_release_of_other_nodes :
-  forall m node m' r, MapInv m -> wf_node node -> release_cidr m node = (m', r) ->
+  forall svcs m node m' r, MapInv m -> Forall wf_cidr svcs -> wf_node node -> release_cidr svcs m node = (m', r) ->
   forall name k, Held m name k -> name <> n_name node ->
     (forall c canon, In (PGood c canon) (n_cidrs node) -> overlapb c k = false) -> Held m' name k.
 Proof. exact release_cidr_keeps. Qed.
